@@ -16,7 +16,8 @@ for id in $IDS; do
   rc=$?
   {
     echo "seed $id vs check $prop (quick) at /verif $(git -C /verif rev-parse --short HEAD): exit=$rc wall=$(( $(date +%s) - start ))s"
-    grep -E "^VIOLATION|^\[vf\] (FAIL|\?\?|counterexample|NOT DECIDED|also failing)|^KNOWN" /tmp/seedrun/$id.log | cut -c1-400 | head -20
+    grep -E "^VIOLATION|^KNOWN" /tmp/seedrun/$id.log | cut -c1-400 | head -5
+    grep -E "^\[vf\] (FAIL|\?\?|counterexample|NOT DECIDED|also failing)" /tmp/seedrun/$id.log | cut -c1-400 | head -20
   } > /verif/seeded/$id/check.txt
   cat /verif/seeded/$id/check.txt
   git -C /repo worktree remove --force $wt
